@@ -1,0 +1,47 @@
+//go:build verif
+
+package dns
+
+// Add-only wrappers for the verification harness (property C11, TSIG). They
+// expose unexported functions of tsig.go without changing behaviour. Inputs
+// are copied first because stripTsig and tsigBuffer write into their argument.
+
+// VerifTsigBuffer is tsigBuffer on a copy of msgbuf and a copy of rr. It
+// returns the digest input and the TSIG as tsigBuffer left it (TimeSigned and
+// Fudge defaults filled in).
+func VerifTsigBuffer(msgbuf []byte, rr *TSIG, requestMAC string, timersOnly bool) ([]byte, *TSIG, error) {
+	m := append([]byte(nil), msgbuf...)
+	t := new(TSIG)
+	*t = *rr
+	b, err := tsigBuffer(m, t, requestMAC, timersOnly)
+	if err != nil {
+		return nil, t, err
+	}
+	return append([]byte(nil), b...), t, nil
+}
+
+// VerifStripTsig is stripTsig on a copy of msg.
+func VerifStripTsig(msg []byte) ([]byte, *TSIG, error) {
+	m := append([]byte(nil), msg...)
+	return stripTsig(m)
+}
+
+// VerifTsigVerify is tsigVerify with the single-secret HMAC provider (what
+// TsigVerify uses) and an explicit clock, on a copy of msg.
+func VerifTsigVerify(msg []byte, secret, requestMAC string, timersOnly bool, now uint64) error {
+	m := append([]byte(nil), msg...)
+	return tsigVerify(m, tsigHMACProvider(secret), requestMAC, timersOnly, now)
+}
+
+// VerifTsigVerifySecrets is tsigVerify with the name-indexed secret provider
+// (what Client, Server and Transfer use) and an explicit clock.
+func VerifTsigVerifySecrets(msg []byte, secrets map[string]string, requestMAC string, timersOnly bool, now uint64) error {
+	m := append([]byte(nil), msg...)
+	return tsigVerify(m, tsigSecretProvider(secrets), requestMAC, timersOnly, now)
+}
+
+// VerifTsigGenerateSecrets is TsigGenerateWithProvider with the name-indexed
+// secret provider.
+func VerifTsigGenerateSecrets(m *Msg, secrets map[string]string, requestMAC string, timersOnly bool) ([]byte, string, error) {
+	return TsigGenerateWithProvider(m, tsigSecretProvider(secrets), requestMAC, timersOnly)
+}
